@@ -1048,3 +1048,117 @@ Proof.
   destruct (full_bytes_name sty c o x bytes Ho Herr Hb Hd Hi Hne Hn HR) as (pre & post & Hpre & E). fold ind in E.
   rewrite (msg_text_no_nl _ Hm), (ind_text_no_nl ind _ Hm) in E. exists pre, post. split; [exact Hpre|exact E].
 Qed.
+
+(* ------------------------------------------------------------------ 6. the hypotheses are satisfiable *)
+Module RenderExamples.
+Import LiteralLemmas.Examples.
+(* clikit's <error> (white on red) and <b> (bold), registered on top of pastel's own styles *)
+Definition cs_error : cstyle :=
+  {| c_tag := Some st_error; c_fg := Some [119;104;105;116;101]%N; c_bg := Some [114;101;100]%N; c_bold := false; c_italic := false;
+     c_dark := false; c_underlined := false; c_blinking := false; c_inverse := false; c_hidden := false |}.
+Definition null_fmt : formatter := {| f_kind := FNull; f_styles := []; f_stack := [] |}.
+Definition demo_fmt (k : fkind) : formatter := match new_formatter k [cs_b; cs_error] with Ok f => f | Err _ => null_fmt end.
+Definition demo_out (k : fkind) (on : bool) (ind : Z) : outp :=
+  {| o_indent := ind; o_on := on; o_sec := false; o_fmt := demo_fmt k; o_buf := [] |}.
+Definition tk k s sr sc er ec ln := {| tk_kind := k; tk_kw := false; tk_bi := false; tk_str := s; tk_srow := sr; tk_scol := sc;
+                                       tk_erow := er; tk_ecol := ec; tk_line := ln |}.
+(* the file "x<NL>": a name and the end marker *)
+Definition demo_toks : list token := [tk TkOther [120%N] 1 0 1 1 [120;10]%N; tk TkEnd [] 2 0 2 0 []].
+(* a frame of a.py, line 1, in a function called <f> *)
+Definition demo_frame : frame :=
+  {| f_file := [97;46;112;121]%N; f_ignored := false; f_lineno := 1; f_func := [60;102;62]%N; f_line := [120%N];
+     f_content := TokOk demo_toks; f_linetoks := TokOk demo_toks |}.
+Definition demo_cfg (v : bool) : tcfg := {| t_verbose := v; t_debug := false; t_utf8 := false; t_cwd := []; t_home := []; t_sep := 47%N |}.
+(* the class  B</error>  raised with the message  <b>x\  *)
+Definition demo_name : str := [66;60;47;101;114;114;111;114;62]%N.
+Definition demo_msg : str := [60;98;62;120;92]%N.
+Definition demo_x (fs : list frame) : exn_case := {| x_name := demo_name; x_msg := demo_msg; x_frames := fs |}.
+Definition demo_sty2 : styles := f_styles (demo_fmt FPlain).
+
+Example demo_out_ok k on ind : k <> FNull -> out_ok demo_sty2 (demo_out k on ind).
+Proof. intros Hk. destruct k as [b| |]; [| |congruence]; (split; [reflexivity|]; split; [discriminate|]; split; reflexivity). Qed.
+Example demo_error : resolvable demo_sty2 st_error. Proof. eexists. vm_compute. reflexivity. Qed.
+Example demo_b : resolvable demo_sty2 st_b. Proof. eexists. vm_compute. reflexivity. Qed.
+
+(* 1: the lines of a verbose two-frame report are good; one of them in full *)
+Example ex_lines_good ls : render_lines (demo_cfg true) false 0 (demo_x [demo_frame; demo_frame]) = Ok ls ->
+  Forall (fun wl => good_line demo_sty2 (snd wl)) ls.
+Proof. apply (render_lines_good demo_sty2 demo_error demo_b). Qed.
+Example ex_frame_line :
+  frame_line (demo_cfg true) 1 demo_frame 1
+  = line_str (PLit st_yellow [49%N] :: PRaw [32;32]%N :: loc_pieces (demo_cfg true) th_builtin demo_frame).
+Proof. vm_compute. reflexivity. Qed.
+
+(* 2: indentation *)
+Example ex_indent : indent_text 2 (line_str (msg_pieces (demo_x []))) = line_str (ind_pieces 2 true (msg_pieces (demo_x []))).
+Proof. apply (indent_text_pieces demo_sty2), (msg_pieces_ok demo_sty2 demo_b). Qed.
+Example ex_indent_nl : (* a text with line breaks between two tags:  <b>a NL NL b NL</b>  *)
+  indent_text 2 (line_str [PNamed st_b [97;10;10;98;10]%N]) = line_str [PRaw [32;32]%N; PNamed st_b [97;10;10;32;32;98;10;32;32]%N].
+Proof. vm_compute. reflexivity. Qed.
+
+(* 3 / 4: the condition of render_lines_ok holds, render does not fail - plain and decorated *)
+Example ex_cond v : render_cond (demo_cfg v) (demo_x [demo_frame; demo_frame]).
+Proof.
+  intros _. split; [eexists; reflexivity|]. intros _. repeat constructor; unfold code_ok; cbn; discriminate.
+Qed.
+Example ex_never_fails_plain v simple : exists bytes, render (demo_cfg v) simple (demo_out FPlain false 0) (demo_x [demo_frame; demo_frame]) = Ok bytes.
+Proof.
+  apply (render_never_fails demo_sty2); [apply demo_out_ok; discriminate|apply demo_error|apply demo_b|intros _; apply ex_cond|].
+  intros H. vm_compute in H. discriminate.
+Qed.
+Example ex_never_fails_ansi : exists bytes, render (demo_cfg true) false (demo_out (FAnsi false) true 0) (demo_x [demo_frame; demo_frame]) = Ok bytes.
+Proof.
+  apply (render_never_fails demo_sty2); [apply demo_out_ok; discriminate|apply demo_error|apply demo_b|intros _; apply ex_cond|].
+  intros _ ls H. vm_compute in H. injection H as <-. repeat constructor; discriminate.
+Qed.
+(* a file that tokenize rejects: the condition fails and so does render (tokenize's exception escapes) *)
+Definition bad_frame : frame :=
+  {| f_file := [97;46;112;121]%N; f_ignored := false; f_lineno := 1; f_func := [102%N]; f_line := [120%N];
+     f_content := TokError; f_linetoks := TokError |}.
+Example ex_cond_fails : ~ render_cond (demo_cfg false) (demo_x [bad_frame]).
+Proof. intros H. destruct (H ltac:(discriminate)) as [(toks & E) _]. discriminate. Qed.
+Example ex_render_fails : render (demo_cfg false) false (demo_out FPlain false 0) (demo_x [bad_frame]) = Err (Other 10).
+Proof. vm_compute. reflexivity. Qed.
+
+(* 5: the bytes.  Simple mode: the message with a blank after its trailing backslash *)
+Example ex_simple : render (demo_cfg false) true (demo_out FPlain false 0) (demo_x [demo_frame]) = Ok (demo_msg ++ [32; NL]%N).
+Proof. rewrite (simple_bytes_0 demo_sty2); [reflexivity|apply demo_out_ok; discriminate|apply demo_error|reflexivity|cbn; lia]. Qed.
+Example ex_simple_vm : render (demo_cfg false) true (demo_out FPlain false 0) (demo_x [demo_frame]) = Ok (demo_msg ++ [32; NL]%N).
+Proof. vm_compute. reflexivity. Qed.
+Example ex_simple_indented : render (demo_cfg false) true (demo_out FPlain false 3) (demo_x [demo_frame]) = Ok ([32;32;32]%N ++ demo_msg ++ [32; NL]%N).
+Proof.
+  rewrite (simple_bytes_one_line demo_sty2); [reflexivity|apply demo_out_ok; discriminate|apply demo_error|reflexivity|cbn; lia|].
+  repeat constructor; discriminate.
+Qed.
+(* full mode, through the theorem and by computation *)
+Example ex_full : exists pre post, (pre = [] \/ exists pre', pre = pre' ++ [NL]) /\
+  render (demo_cfg false) false (demo_out FPlain false 0) (demo_x [demo_frame])
+  = Ok (pre ++ [NL] ++ [32;32]%N ++ demo_name ++ [NL] ++ [NL] ++ [32;32]%N ++ demo_msg ++ [32%N] ++ [NL] ++ post).
+Proof.
+  destruct (ex_never_fails_plain false false) as (bytes & _).
+  destruct (render (demo_cfg false) false (demo_out FPlain false 0) (demo_x [demo_frame])) as [b|e] eqn:E; [|vm_compute in E; discriminate].
+  assert (no_nl demo_name) as Hn by (repeat constructor; discriminate).
+  assert (no_nl demo_msg) as Hm by (repeat constructor; discriminate).
+  destruct (full_bytes_one_line demo_sty2 (demo_cfg false) (demo_out FPlain false 0) (demo_x [demo_frame]) b
+              (demo_out_ok FPlain false 0 ltac:(discriminate)) demo_error demo_b eq_refl ltac:(cbn; lia) ltac:(discriminate) Hn Hm E)
+    as (pre & post & Hpre & Eb).
+  exists pre, post. split; [exact Hpre|]. rewrite Eb. reflexivity.
+Qed.
+Example ex_full_vm :
+  render (demo_cfg false) false (demo_out FPlain false 0) (demo_x [demo_frame])
+  = Ok ([NL] ++ [32;32]%N ++ demo_name ++ [NL] ++ [NL] ++ [32;32]%N ++ demo_msg ++ [32%N] ++ [NL]
+        ++ [NL] ++ [32;32;97;116;32;97;46;112;121;58;49;32;105;110;32;60;102;62;10]%N      (*   at a.py:1 in <f> *)
+        ++ [32;32;32;32;62;32;32;32;49;124;32;120;10]%N).                                  (*     >   1| x *)
+Proof. vm_compute. reflexivity. Qed.
+End RenderExamples.
+
+Print Assumptions render_lines_good.
+Print Assumptions indent_good_ne.
+Print Assumptions write_pieces.
+Print Assumptions write_lines_good.
+Print Assumptions render_never_fails.
+Print Assumptions render_lines_ok.
+Print Assumptions render_plain_bytes_l.
+Print Assumptions simple_bytes.
+Print Assumptions full_bytes.
+Print Assumptions full_bytes_one_line.
